@@ -308,6 +308,8 @@ ALT_PASSES = [
       "RSTUDIO": "1", "RSTUDIO_PANDOC": "/usr/lib/rstudio/bin/pandoc", "JPY_PARENT_PID": "4242", "JUPYTERHUB_USER": "someone", "VSCODE_PID": "77", "SHINY_PORT": "3838",
       "SHINY_HOST": "0.0.0.0", "PYODIDE": "", "CI": "true", "GITHUB_ACTIONS": "true", "NO_COLOR": "1", "TERM": "dumb", "TZ": "Pacific/Kiritimati", "COLUMNS": "20", "DEBUG": "1",
       "HTMLTOOLS_DEBUG": "1", "BROWSER": "none", "SOURCE_DATE_EPOCH": "0"}, True),
+    # everything happens in a worker thread (the library was imported by the main thread, which only waits)
+    ("worker thread", [], {"HV_RUN_IN_THREAD": "1"}, False),
 ]
 
 
